@@ -277,7 +277,7 @@ func init() {
 		Rule: "simulator chains (incl. deposits mid-epoch, fork upgrades, sync-committee period boundaries, and 'forky' sibling chains that share one pubkey cache and include deposits in different order); after every slot and block the long-lived context is compared field by field " +
 			"(three shufflings, proposers, effective balances, total stake and its root, both sync committees, pubkey<->index look-ups for every validator) with NewEpochsContext on the same state; every 3rd block a shadow lineage is reloaded from the serialized state with a fresh context and must produce the same result for the next block. " +
 			"A case is one chain; non-trivial when >=1 epoch boundary and >=1 reload were compared; distinct by scenario",
-		Assumptions: append(append([]string{}, chainAssume...), "validators appended by deposits during the current epoch may be missing from the live per-epoch vectors (they cannot have duties): only the prefix that existed at the epoch start is compared (benign suffix)"),
+		Assumptions:  append(append([]string{}, chainAssume...), "validators appended by deposits during the current epoch may be missing from the live per-epoch vectors (they cannot have duties): only the prefix that existed at the epoch start is compared (benign suffix)"),
 		Batches:      func(tier string) int { return 16 },
 		ChildTimeout: func(string) time.Duration { return 40 * time.Minute },
 		Run:          runC08,
